@@ -49,13 +49,20 @@ def events(labels):
     for op in (("setp", "c", "b"), ("setp", "a", "c"), ("setp", "d", "a"), ("setp", "c", None), ("delc", "c"),
                ("setc", "c", ("d",), "list"), ("setc", "a", ("b", "c"), "list")):
         ev.append(("struct",) + op)
+    ev.append(("retarget", "d", "e"))    # the intermediate link of a chain is pointed elsewhere: d -> e -> b
+    ev.append(("retarget", "c", "b"))    # c -> b (so d -> c -> b)
     ev.append(("newlink", "a"))          # SymlinkNode(target a, foo=.., baz=..): constructor keywords land on the target
     ev.append(("newlink", "c"))
     return ev
 
 
-def final_target(label):
-    return {"c": "a", "d": "a", "e": "b"}.get(label, label)
+def final_target(label, direct=None):
+    direct = direct or {"c": "a", "d": "c", "e": "b"}
+    seen = 0
+    while label in direct and seen < 10:
+        label = direct[label]
+        seen += 1
+    return label
 
 
 def read_attr(obj, name):
@@ -78,6 +85,7 @@ def run_sequence(t, witness, seq):
     nodes = u.nodes
     model = {"a": {"name": "a"}, "b": {"name": "b"}}   # attribute store of the real (non-link) objects
     links = ("c", "d", "e")
+    direct = {"c": "a", "d": "c", "e": "b"}
     step = 0
     ctx = {"engine": "E2", "module": MOD, "part": "attributes", "witness": [list(w) for w in witness], "events": [list(e) for e in seq]}
 
@@ -85,7 +93,7 @@ def run_sequence(t, witness, seq):
         st = u.state()
         for l in list(nodes):
             obj = nodes[l]
-            tl = final_target(l) if l in links else l
+            tl = final_target(l, direct) if l in links else l
             if l not in links and l not in model:
                 continue
             for name in NAMES + ("baz", "nope"):
@@ -104,8 +112,7 @@ def run_sequence(t, witness, seq):
                 if stray:
                     t.violation("C20: attribute(s) %r are stored in the link %s itself %s" % (stray, l, after), dict(ctx, step=step))
                     return False
-                direct = {"c": "a", "d": "c", "e": "b"}[l]
-                if d.get("target") is not nodes[direct]:
+                if d.get("target") is not nodes[direct[l]]:
                     t.violation("C20: target of link %s changed %s" % (l, after), dict(ctx, step=step))
                     return False
         return st
@@ -118,7 +125,7 @@ def run_sequence(t, witness, seq):
         value = ["v%d" % step, step]
         if ev[0] == "write":
             setattr(nodes[ev[1]], ev[2], value)
-            model[final_target(ev[1])][ev[2]] = value
+            model[final_target(ev[1], direct)][ev[2]] = value
             t.c["writes"] += 1
             if ev[1] in links:
                 t.c["writes_through_links"] += 1
@@ -127,6 +134,22 @@ def run_sequence(t, witness, seq):
                 return
             if st2 != st:
                 t.violation("C20: an attribute write changed the tree structure", dict(ctx, step=step))
+                return
+        elif ev[0] == "retarget":
+            if final_target(ev[2], direct) == ev[1] or ev[2] == ev[1]:
+                continue  # would make the chain cyclic: not a legal configuration
+            probe = dict(direct)
+            probe[ev[1]] = ev[2]
+            if final_target(ev[1], probe) in probe:
+                continue
+            nodes[ev[1]].target = nodes[ev[2]]
+            direct[ev[1]] = ev[2]
+            t.c["retargets"] += 1
+            st2 = check("after %s.target = %s" % (ev[1], ev[2]))
+            if st2 is False:
+                return
+            if st2 != st:
+                t.violation("C20: assigning a link's target changed the tree structure", dict(ctx, step=step))
                 return
         elif ev[0] == "struct":
             try:
@@ -140,8 +163,8 @@ def run_sequence(t, witness, seq):
         else:
             tgt = nodes[ev[1]]
             ln = cls["symlink"](tgt, foo=value, baz=step)
-            model[final_target(ev[1])]["foo"] = value
-            model[final_target(ev[1])]["baz"] = step
+            model[final_target(ev[1], direct)]["foo"] = value
+            model[final_target(ev[1], direct)]["baz"] = step
             t.c["constructor_kwargs"] += 1
             d = own_dict(ln)
             if [k for k in d if k not in ("target", "_NodeMixin__parent", "_NodeMixin__children")]:
@@ -155,6 +178,61 @@ def run_sequence(t, witness, seq):
                 return
         t.c["nontrivial"] += 1
     t.c["sequences"] += 1
+
+
+def check_refusing_targets(t):
+    """A target that refuses an assignment (read-only property, undeclared attribute of a slotted class): the
+    exception must surface and the link must not keep the value itself."""
+    import anytree
+
+    class Strict(anytree.NodeMixin):
+        def __init__(self, name):
+            self.name = name
+
+        @property
+        def ro(self):
+            return "fixed"
+
+    class Slotted(anytree.LightNodeMixin):
+        __slots__ = ("name",)
+
+        def __init__(self, name):
+            self.name = name
+
+    for tcls, attr in ((Strict, "ro"), (Slotted, "colour")):
+        tgt = tcls("t")
+        for depth in (1, 2):
+            link = anytree.SymlinkNode(tgt)
+            if depth == 2:
+                link = anytree.SymlinkNode(link)
+            before = read_attr(link, attr)
+            try:
+                setattr(link, attr, "mine")
+                raised = False
+            except AttributeError:
+                raised = True
+            t.c["evaluations"] += 1
+            t.c["refused_writes"] += 1
+            stray = [k for k in own_dict(link) if k not in ("target", "_NodeMixin__parent", "_NodeMixin__children")]
+            why = None
+            if stray:
+                why = "a write the target refused was kept on the link itself (%r)" % stray
+            elif not raised:
+                why = "a write the target refuses was silently accepted"
+            elif read_attr(link, attr) != before or read_attr(link, attr)[:1] != read_attr(tgt, attr)[:1]:
+                why = "reading through the link differs from the target after a refused write"
+            link.name = "renamed-%d" % depth
+            if tgt.name != "renamed-%d" % depth:
+                why = why or "an accepted write through the link did not reach the target"
+            if why:
+                t.violation("C20: " + why, {"engine": "E2", "module": MOD, "part": "refusing-target", "target_class": tcls.__name__,
+                                            "attribute": attr, "chain_length": depth})
+
+
+def job_refusing():
+    t = core.Tally()
+    core.guard(t, "C20", {"engine": "E2", "module": MOD, "part": "refusing-target"}, check_refusing_targets, t)
+    return t
 
 
 def job_attr(states, depth, deep_from_initial):
@@ -186,6 +264,9 @@ def _tup(x):
 
 def replay(c):
     t = core.Tally()
+    if c.get("part") == "refusing-target":
+        check_refusing_targets(t)
+        return [v["why"] for v in t.violations]
     run_sequence(t, _tup(c["witness"]), _tup(c["events"]))
     return [v["why"] for v in t.violations]
 
@@ -212,6 +293,7 @@ def run(tier):
         depth = 2
         jobs = [(MOD, "job_attr", {"states": s, "depth": depth, "deep_from_initial": False}) for s in core.shard(sel, core.NPROC * 4)]
         jobs.append((MOD, "job_attr", {"states": [], "depth": 2, "deep_from_initial": True}))
+        jobs.append((MOD, "job_refusing", {}))
         pool.run(jobs, into=t)
     finally:
         pool.close()
@@ -223,12 +305,13 @@ def run(tier):
                 "universes {Node a, Node b, link c->a, link d->c, (link e->b)}, {links to external targets}, {Node, AnyNode, link, "
                 "mixin} with the C01 invariant, the C02 model and the C03 oracle, and external targets never touched; attributes: "
                 "from %d forest states of the 5-label universe every sequence of <=2 events (and every sequence of 3 from the initial "
-                "state) over 11 attribute writes (through link / link-to-link / on target), 7 structural calls and 2 constructor "
+                "state) over 11 attribute writes (through link / link-to-link / on target), 7 structural calls, 2 re-targetings of links and 2 constructor "
                 "calls with keywords; after each event every read on every link and node is compared by identity with a reference "
                 "attribute store, and link objects must not store forwarded attributes; non-trivial = events applied" % len(sel),
-        "bounds": summ + [{"attribute_start_states": len(sel), "of": len(states), "event_menu": 20, "depth": "2 (3 from the initial state)"}],
+        "bounds": summ + [{"attribute_start_states": len(sel), "of": len(states), "event_menu": 22, "depth": "2 (3 from the initial state)"}],
     }
     return {"tally": t, "coverage": cov, "known": known,
-            "guards": ("writes_through_links", "structural_events", "constructor_kwargs", "sequences", "refusals", "pre_hook_vetoes"),
+            "guards": ("writes_through_links", "structural_events", "constructor_kwargs", "sequences", "refusals", "pre_hook_vetoes",
+                       "retargets", "refused_writes"),
             "assumptions": ["attribute names {foo, bar, name, baz, nope}; bounded universes", "C03 known findings apply to link nodes "
                             "identically (same setter code) and are matched exactly as in C03"]}
